@@ -1,0 +1,429 @@
+//go:build verif
+
+// Contracts for package cache (comment-only; compiled only under the `verif` build tag, and even then it
+// contributes nothing but this package clause). They are read by /verif/govc, which generates verification
+// conditions from the real functions of this package and discharges them with SMT solvers.
+package cache
+
+// ---------------------------------------------------------------------------------------------
+// TTL semantics (the oracle; taken from the property statements, not from the code)
+// ---------------------------------------------------------------------------------------------
+//@ define eff(d, D) = ite(d == DefaultExpiration, D, d)
+//@ define expAt(d, D, t) = ite(eff(d, D) > 0, t + eff(d, D), 0)
+//@ define isExpired(e, t) = e > 0 && t > e
+//@ define DEXP(c) = c.defaultExpiration.v.(time.Duration)
+//@ define cfgOK(c) = is(c.defaultExpiration.v, time.Duration) && is(c.evictedCallback.v, EvictedCallback)
+//@ define cfgOKOf(c) = is(c.defaultExpiration.v, time.Duration) && is(c.evictedCallback.v, EvictedCallbackOf)
+
+//@ -- twin-begin Cache
+//@ func (*item).expired
+//@   requires i != nil
+//@   ensures {C01,C09} post.value: res0 == isExpired(i.e, now)
+
+//@ func (*item).expiredWithNow
+//@   requires i != nil
+//@   ensures {C01,C09} post.value: res0 == isExpired(i.e, now)
+
+//@ func (*xsyncMap).DefaultExpiration
+//@   requires c != nil && cfgOK(c)
+//@   ensures {C09} post.value: res0 == DEXP(c)
+
+//@ func (*xsyncMap).expiration
+//@   requires c != nil && cfgOK(c)
+//@   ensures {C09} post.value: e == expAt(d, DEXP(c), now)
+
+// ---------------------------------------------------------------------------------------------
+// Cache (string keys, interface{} values).  P(c) = view(c.items) is the physical content: it may hold
+// expired entries that were not cleaned yet.  Stored values are boxed `item`s.
+// ---------------------------------------------------------------------------------------------
+//@ define IE(x) = x.(item).e
+//@ define IV(x) = x.(item).v
+//@ define ITEM(v, e) = box(mk(item, v, e))
+//@ define live(o, t) = present(o) && !isExpired(IE(val(o)), t)
+//@ define liveV(o, t) = ite(live(o, t), IV(val(o)), nil)
+//@ define allItems(P) = forall q: string :: present(P[q]) ==> is(val(P[q]), item)
+//@ define EC(c) = c.evictedCallback.v.(EvictedCallback)
+//@ define cacheInv(c) = c != nil && cfgOK(c) && c.items != nil && mapInv(c.items) && allItems(view(c.items))
+
+//@ func (*xsyncMap).Set
+//@   requires cacheInv(c)
+//@   modifies view(c.items)
+//@   ensures {C01,C09} post.state: view(c.items) == put(old(view(c.items)), k, ITEM(v, expAt(d, DEXP(c), now)))
+//@   ensures cacheInv(c)
+
+//@ func (*xsyncMap).SetDefault
+//@   requires cacheInv(c)
+//@   modifies view(c.items)
+//@   ensures {C01,C09} post.state: view(c.items) == put(old(view(c.items)), k, ITEM(v, expAt(DefaultExpiration, DEXP(c), now)))
+//@   ensures cacheInv(c)
+
+//@ func (*xsyncMap).SetForever
+//@   requires cacheInv(c)
+//@   modifies view(c.items)
+//@   ensures {C01,C09} post.state: view(c.items) == put(old(view(c.items)), k, ITEM(v, 0))
+//@   ensures cacheInv(c)
+
+//@ func (*xsyncMap).get
+//@   requires cacheInv(c)
+//@   let P = old(view(c.items))
+//@   let o = P[k]
+//@   modifies view(c.items)
+//@   ensures {C01} post.ok: res1 == live(o, now)
+//@   ensures {C01,C09} post.value: res0 == ite(live(o, now), val(o), nil)
+//@   ensures {C01} post.state: view(c.items) == ite(present(o) && !live(o, now), remove(P, k), P)
+//@   ensures cacheInv(c)
+
+//@ func (*xsyncMap).Get
+//@   requires cacheInv(c)
+//@   let P = old(view(c.items))
+//@   let o = P[k]
+//@   modifies view(c.items)
+//@   ensures {C01} post.ok: res1 == live(o, now)
+//@   ensures {C01} post.value: res0 == liveV(o, now)
+//@   ensures {C01} post.state: view(c.items) == ite(present(o) && !live(o, now), remove(P, k), P)
+//@   ensures cacheInv(c)
+
+//@ func (*xsyncMap).GetWithExpiration
+//@   requires cacheInv(c)
+//@   let P = old(view(c.items))
+//@   let o = P[k]
+//@   modifies view(c.items)
+//@   ensures {C01} post.ok: res2 == live(o, now)
+//@   ensures {C01} post.value: res0 == liveV(o, now)
+//@   ensures {C09} post.instant: res1 == ite(live(o, now) && IE(val(o)) > 0, timeunix(0, IE(val(o))), zero(time.Time))
+//@   ensures {C01} post.state: view(c.items) == ite(present(o) && !live(o, now), remove(P, k), P)
+//@   ensures cacheInv(c)
+
+//@ func (*xsyncMap).GetWithTTL
+//@   requires cacheInv(c)
+//@   let P = old(view(c.items))
+//@   let o = P[k]
+//@   modifies view(c.items)
+//@   ensures {C01} post.ok: res2 == live(o, now)
+//@   ensures {C01} post.value: res0 == liveV(o, now)
+//@   ensures {C09} post.ttl: res1 == ite(live(o, now), ite(IE(val(o)) > 0, IE(val(o)) - now, NoExpiration), 0)
+//@   ensures {C01} post.state: view(c.items) == ite(present(o) && !live(o, now), remove(P, k), P)
+//@   ensures cacheInv(c)
+
+//@ func (*xsyncMap).GetOrSet
+//@   requires cacheInv(c)
+//@   let P = old(view(c.items))
+//@   let o = P[k]
+//@   let lv = live(o, now)
+//@   modifies view(c.items)
+//@   ensures {C01,C05} post.loaded: res1 == lv
+//@   ensures {C01,C05} post.value: res0 == ite(lv, IV(val(o)), v)
+//@   ensures {C01,C09} post.state: view(c.items) == ite(lv, P, put(P, k, ITEM(v, expAt(d, DEXP(c), now))))
+//@   ensures cacheInv(c)
+
+//@ func (*xsyncMap).GetAndSet
+//@   requires cacheInv(c)
+//@   let P = old(view(c.items))
+//@   let o = P[k]
+//@   let lv = live(o, now)
+//@   modifies view(c.items)
+//@   ensures {C01,C05} post.loaded: res1 == lv
+//@   ensures {C01,C05} post.value: res0 == ite(lv, IV(val(o)), v)
+//@   ensures {C01,C09} post.state: view(c.items) == put(P, k, ITEM(v, expAt(d, DEXP(c), now)))
+//@   ensures cacheInv(c)
+
+//@ func (*xsyncMap).GetAndRefresh
+//@   requires cacheInv(c)
+//@   let P = old(view(c.items))
+//@   let o = P[k]
+//@   let lv = live(o, now)
+//@   modifies view(c.items)
+//@   ensures {C01} post.loaded: res1 == lv
+//@   ensures {C01} post.value: res0 == liveV(o, now)
+//@   ensures {C01,C09} post.state: view(c.items) == ite(lv, put(P, k, ITEM(IV(val(o)), expAt(d, DEXP(c), now))), remove(P, k))
+//@   ensures cacheInv(c)
+
+//@ func (*xsyncMap).GetOrCompute
+//@   requires cacheInv(c)
+//@   requires valueFn != nil
+//@   opaque pure valueFn
+//@   let P = old(view(c.items))
+//@   let o = P[k]
+//@   let lv = live(o, now)
+//@   calls when(!lv, valueFn()) -> (x)
+//@   modifies view(c.items)
+//@   ensures {C01,C05} post.loaded: res1 == lv
+//@   ensures {C01,C05} post.value: res0 == ite(lv, IV(val(o)), x)
+//@   ensures {C01,C09} post.state: view(c.items) == ite(lv, P, put(P, k, ITEM(x, expAt(d, DEXP(c), now))))
+//@   ensures cacheInv(c)
+
+//@ func (*xsyncMap).Compute
+//@   requires cacheInv(c)
+//@   requires valueFn != nil
+//@   opaque pure valueFn
+//@   let P = old(view(c.items))
+//@   let o = P[k]
+//@   let lv = live(o, now)
+//@   calls valueFn(liveV(o, now), lv) -> (nv, del)
+//@   modifies view(c.items)
+//@   ensures {C01,C05} post.del: del ==> view(c.items) == remove(P, k) && res0 == liveV(o, now) && !res1
+//@   ensures {C01,C05,C09} post.upd: !del ==> view(c.items) == put(P, k, ITEM(nv, expAt(d, DEXP(c), now))) && res0 == nv && res1
+//@   ensures cacheInv(c)
+
+//@ func (*xsyncMap).Clear
+//@   requires cacheInv(c)
+//@   modifies view(c.items)
+//@   ensures {C01,C08} post.state: view(c.items) == emptymap(old(view(c.items)))
+//@   ensures cacheInv(c)
+
+//@ func (*xsyncMap).Count
+//@   requires cacheInv(c)
+//@   ensures {C08} post.value: bv2int(res0) == card(view(c.items))
+
+//@ func (*xsyncMap).SetDefaultExpiration
+//@   requires cacheInv(c)
+//@   modifies mem(c.defaultExpiration)
+//@   ensures {C09} post.value: DEXP(c) == defaultExpiration
+//@   ensures cacheInv(c)
+
+//@ func (*xsyncMap).EvictedCallback
+//@   requires c != nil && cfgOK(c)
+//@   ensures {C06} post.value: res0 == EC(c)
+
+//@ func (*xsyncMap).SetEvictedCallback
+//@   requires cacheInv(c)
+//@   modifies mem(c.evictedCallback)
+//@   ensures {C06} post.value: EC(c) == evictedCallback
+//@   ensures cacheInv(c)
+
+//@ func (*xsyncMap).GetAndDelete
+//@   requires cacheInv(c)
+//@   reenters cacheInv(c)
+//@   let P = old(view(c.items))
+//@   let o = P[k]
+//@   let ec = old(EC(c))
+//@   let n0 = old(cbn(ec))
+//@   let fires = present(o) && ec != nil
+//@   modifies view(c.items), ledger(EC(c))
+//@   ensures {C01} post.loaded: res1 == live(o, now)
+//@   ensures {C01} post.value: res0 == liveV(o, now)
+//@   ensures {C01,C06} post.state: cbpure ==> view(c.items) == remove(P, k)
+//@   ensures {C06} post.fired: cbpure ==> cbn(ec) == n0 + ite(fires, 1, 0)
+//@   ensures {C06} post.firedwith: cbpure && fires ==> cbf(ec, n0) == ec && cba(ec, n0, 0) == k && cba(ec, n0, 1) == IV(val(o))
+//@   ensures cacheInv(c)
+
+//@ func (*xsyncMap).Delete
+//@   requires cacheInv(c)
+//@   reenters cacheInv(c)
+//@   let P = old(view(c.items))
+//@   let o = P[k]
+//@   let ec = old(EC(c))
+//@   let n0 = old(cbn(ec))
+//@   let fires = present(o) && ec != nil
+//@   modifies view(c.items), ledger(EC(c))
+//@   ensures {C01,C06} post.state: cbpure ==> view(c.items) == remove(P, k)
+//@   ensures {C06} post.fired: cbpure ==> cbn(ec) == n0 + ite(fires, 1, 0)
+//@   ensures {C06} post.firedwith: cbpure && fires ==> cbf(ec, n0) == ec && cba(ec, n0, 0) == k && cba(ec, n0, 1) == IV(val(o))
+//@   ensures cacheInv(c)
+//@ -- twin-end Cache
+
+//@ -- twin-begin CacheOf
+//@ func (*itemOf[V]).expired
+//@   requires i != nil
+//@   ensures {C01,C09} post.value: res0 == isExpired(i.e, now)
+
+//@ func (*itemOf[V]).expiredWithNow
+//@   requires i != nil
+//@   ensures {C01,C09} post.value: res0 == isExpired(i.e, now)
+
+//@ func (*xsyncMapOf[K, V]).DefaultExpiration
+//@   requires c != nil && cfgOKOf(c)
+//@   ensures {C09} post.value: res0 == DEXP(c)
+
+//@ func (*xsyncMapOf[K, V]).expiration
+//@   requires c != nil && cfgOKOf(c)
+//@   ensures {C09} post.value: e == expAt(d, DEXP(c), now)
+
+// ---------------------------------------------------------------------------------------------
+// CacheOf[K, V] (generic twin).  P(c) = view(c.items) is the physical content: it may hold
+// expired entries that were not cleaned yet.  Stored values are itemOf[V] structs.
+// ---------------------------------------------------------------------------------------------
+//@ define IEOf(x) = x.e
+//@ define IVOf(x) = x.v
+//@ define ITEMOf(v, e) = mk(itemOf, v, e)
+//@ define liveOf(o, t) = present(o) && !isExpired(IEOf(val(o)), t)
+//@ define liveVOf(o, t) = ite(liveOf(o, t), IVOf(val(o)), nil)
+//@ define ECOf(c) = c.evictedCallback.v.(EvictedCallbackOf)
+//@ define cacheInvOf(c) = c != nil && cfgOKOf(c) && c.items != nil && mapInv(c.items)
+
+//@ func (*xsyncMapOf[K, V]).Set
+//@   requires cacheInvOf(c)
+//@   modifies view(c.items)
+//@   ensures {C01,C09} post.state: view(c.items) == put(old(view(c.items)), k, ITEMOf(v, expAt(d, DEXP(c), now)))
+//@   ensures cacheInvOf(c)
+
+//@ func (*xsyncMapOf[K, V]).SetDefault
+//@   requires cacheInvOf(c)
+//@   modifies view(c.items)
+//@   ensures {C01,C09} post.state: view(c.items) == put(old(view(c.items)), k, ITEMOf(v, expAt(DefaultExpiration, DEXP(c), now)))
+//@   ensures cacheInvOf(c)
+
+//@ func (*xsyncMapOf[K, V]).SetForever
+//@   requires cacheInvOf(c)
+//@   modifies view(c.items)
+//@   ensures {C01,C09} post.state: view(c.items) == put(old(view(c.items)), k, ITEMOf(v, 0))
+//@   ensures cacheInvOf(c)
+
+//@ func (*xsyncMapOf[K, V]).get
+//@   requires cacheInvOf(c)
+//@   let P = old(view(c.items))
+//@   let o = P[k]
+//@   modifies view(c.items)
+//@   ensures {C01} post.ok: res1 == liveOf(o, now)
+//@   ensures {C01,C09} post.value: res0 == ite(liveOf(o, now), val(o), nil)
+//@   ensures {C01} post.state: view(c.items) == ite(present(o) && !liveOf(o, now), remove(P, k), P)
+//@   ensures cacheInvOf(c)
+
+//@ func (*xsyncMapOf[K, V]).Get
+//@   requires cacheInvOf(c)
+//@   let P = old(view(c.items))
+//@   let o = P[k]
+//@   modifies view(c.items)
+//@   ensures {C01} post.ok: res1 == liveOf(o, now)
+//@   ensures {C01} post.value: res0 == liveVOf(o, now)
+//@   ensures {C01} post.state: view(c.items) == ite(present(o) && !liveOf(o, now), remove(P, k), P)
+//@   ensures cacheInvOf(c)
+
+//@ func (*xsyncMapOf[K, V]).GetWithExpiration
+//@   requires cacheInvOf(c)
+//@   let P = old(view(c.items))
+//@   let o = P[k]
+//@   modifies view(c.items)
+//@   ensures {C01} post.ok: res2 == liveOf(o, now)
+//@   ensures {C01} post.value: res0 == liveVOf(o, now)
+//@   ensures {C09} post.instant: res1 == ite(liveOf(o, now) && IEOf(val(o)) > 0, timeunix(0, IEOf(val(o))), zero(time.Time))
+//@   ensures {C01} post.state: view(c.items) == ite(present(o) && !liveOf(o, now), remove(P, k), P)
+//@   ensures cacheInvOf(c)
+
+//@ func (*xsyncMapOf[K, V]).GetWithTTL
+//@   requires cacheInvOf(c)
+//@   let P = old(view(c.items))
+//@   let o = P[k]
+//@   modifies view(c.items)
+//@   ensures {C01} post.ok: res2 == liveOf(o, now)
+//@   ensures {C01} post.value: res0 == liveVOf(o, now)
+//@   ensures {C09} post.ttl: res1 == ite(liveOf(o, now), ite(IEOf(val(o)) > 0, IEOf(val(o)) - now, NoExpiration), 0)
+//@   ensures {C01} post.state: view(c.items) == ite(present(o) && !liveOf(o, now), remove(P, k), P)
+//@   ensures cacheInvOf(c)
+
+//@ func (*xsyncMapOf[K, V]).GetOrSet
+//@   requires cacheInvOf(c)
+//@   let P = old(view(c.items))
+//@   let o = P[k]
+//@   let lv = liveOf(o, now)
+//@   modifies view(c.items)
+//@   ensures {C01,C05} post.loaded: res1 == lv
+//@   ensures {C01,C05} post.value: res0 == ite(lv, IVOf(val(o)), v)
+//@   ensures {C01,C09} post.state: view(c.items) == ite(lv, P, put(P, k, ITEMOf(v, expAt(d, DEXP(c), now))))
+//@   ensures cacheInvOf(c)
+
+//@ func (*xsyncMapOf[K, V]).GetAndSet
+//@   requires cacheInvOf(c)
+//@   let P = old(view(c.items))
+//@   let o = P[k]
+//@   let lv = liveOf(o, now)
+//@   modifies view(c.items)
+//@   ensures {C01,C05} post.loaded: res1 == lv
+//@   ensures {C01,C05} post.value: res0 == ite(lv, IVOf(val(o)), v)
+//@   ensures {C01,C09} post.state: view(c.items) == put(P, k, ITEMOf(v, expAt(d, DEXP(c), now)))
+//@   ensures cacheInvOf(c)
+
+//@ func (*xsyncMapOf[K, V]).GetAndRefresh
+//@   requires cacheInvOf(c)
+//@   let P = old(view(c.items))
+//@   let o = P[k]
+//@   let lv = liveOf(o, now)
+//@   modifies view(c.items)
+//@   ensures {C01} post.loaded: res1 == lv
+//@   ensures {C01} post.value: res0 == liveVOf(o, now)
+//@   ensures {C01,C09} post.state: view(c.items) == ite(lv, put(P, k, ITEMOf(IVOf(val(o)), expAt(d, DEXP(c), now))), remove(P, k))
+//@   ensures cacheInvOf(c)
+
+//@ func (*xsyncMapOf[K, V]).GetOrCompute
+//@   requires cacheInvOf(c)
+//@   requires valueFn != nil
+//@   opaque pure valueFn
+//@   let P = old(view(c.items))
+//@   let o = P[k]
+//@   let lv = liveOf(o, now)
+//@   calls when(!lv, valueFn()) -> (x)
+//@   modifies view(c.items)
+//@   ensures {C01,C05} post.loaded: res1 == lv
+//@   ensures {C01,C05} post.value: res0 == ite(lv, IVOf(val(o)), x)
+//@   ensures {C01,C09} post.state: view(c.items) == ite(lv, P, put(P, k, ITEMOf(x, expAt(d, DEXP(c), now))))
+//@   ensures cacheInvOf(c)
+
+//@ func (*xsyncMapOf[K, V]).Compute
+//@   requires cacheInvOf(c)
+//@   requires valueFn != nil
+//@   opaque pure valueFn
+//@   let P = old(view(c.items))
+//@   let o = P[k]
+//@   let lv = liveOf(o, now)
+//@   calls valueFn(liveVOf(o, now), lv) -> (nv, del)
+//@   modifies view(c.items)
+//@   ensures {C01,C05} post.del: del ==> view(c.items) == remove(P, k) && res0 == liveVOf(o, now) && !res1
+//@   ensures {C01,C05,C09} post.upd: !del ==> view(c.items) == put(P, k, ITEMOf(nv, expAt(d, DEXP(c), now))) && res0 == nv && res1
+//@   ensures cacheInvOf(c)
+
+//@ func (*xsyncMapOf[K, V]).Clear
+//@   requires cacheInvOf(c)
+//@   modifies view(c.items)
+//@   ensures {C01,C08} post.state: view(c.items) == emptymap(old(view(c.items)))
+//@   ensures cacheInvOf(c)
+
+//@ func (*xsyncMapOf[K, V]).Count
+//@   requires cacheInvOf(c)
+//@   ensures {C08} post.value: bv2int(res0) == card(view(c.items))
+
+//@ func (*xsyncMapOf[K, V]).SetDefaultExpiration
+//@   requires cacheInvOf(c)
+//@   modifies mem(c.defaultExpiration)
+//@   ensures {C09} post.value: DEXP(c) == defaultExpiration
+//@   ensures cacheInvOf(c)
+
+//@ func (*xsyncMapOf[K, V]).EvictedCallback
+//@   requires c != nil && cfgOKOf(c)
+//@   ensures {C06} post.value: res0 == ECOf(c)
+
+//@ func (*xsyncMapOf[K, V]).SetEvictedCallback
+//@   requires cacheInvOf(c)
+//@   modifies mem(c.evictedCallback)
+//@   ensures {C06} post.value: ECOf(c) == evictedCallback
+//@   ensures cacheInvOf(c)
+
+//@ func (*xsyncMapOf[K, V]).GetAndDelete
+//@   requires cacheInvOf(c)
+//@   reenters cacheInvOf(c)
+//@   let P = old(view(c.items))
+//@   let o = P[k]
+//@   let ec = old(ECOf(c))
+//@   let n0 = old(cbn(ec))
+//@   let fires = present(o) && ec != nil
+//@   modifies view(c.items), ledger(ECOf(c))
+//@   ensures {C01} post.loaded: res1 == liveOf(o, now)
+//@   ensures {C01} post.value: res0 == liveVOf(o, now)
+//@   ensures {C01,C06} post.state: cbpure ==> view(c.items) == remove(P, k)
+//@   ensures {C06} post.fired: cbpure ==> cbn(ec) == n0 + ite(fires, 1, 0)
+//@   ensures {C06} post.firedwith: cbpure && fires ==> cbf(ec, n0) == ec && cba(ec, n0, 0) == k && cba(ec, n0, 1) == IVOf(val(o))
+//@   ensures cacheInvOf(c)
+
+//@ func (*xsyncMapOf[K, V]).Delete
+//@   requires cacheInvOf(c)
+//@   reenters cacheInvOf(c)
+//@   let P = old(view(c.items))
+//@   let o = P[k]
+//@   let ec = old(ECOf(c))
+//@   let n0 = old(cbn(ec))
+//@   let fires = present(o) && ec != nil
+//@   modifies view(c.items), ledger(ECOf(c))
+//@   ensures {C01,C06} post.state: cbpure ==> view(c.items) == remove(P, k)
+//@   ensures {C06} post.fired: cbpure ==> cbn(ec) == n0 + ite(fires, 1, 0)
+//@   ensures {C06} post.firedwith: cbpure && fires ==> cbf(ec, n0) == ec && cba(ec, n0, 0) == k && cba(ec, n0, 1) == IVOf(val(o))
+//@   ensures cacheInvOf(c)
+//@ -- twin-end CacheOf
